@@ -506,6 +506,8 @@ def classify(pr, n, strs, sem, registered_ids, spelling="flat"):
         except Exception as e:  # noqa
             return "raises-" + type(e).__name__
         for sid in items:
+            if c.get_color(sid) is c.get_color("TEXT"):
+                return "not-registered:" + sid          # unknown ids get the formatter object of TEXT
             reg = dict(BUILTIN_DESCRS)
             reg.update({i: sem[i] for i in items})
             st, prob = fmt_state(c.get_color(sid))
